@@ -331,11 +331,24 @@ def driver(tier, only, jobs, seed):
             samples.append(dict(instance=inst['name'], verdict=res['verdict'], wall_s=res['wall_s'], call=res.get('call')))
     if not twin_ok:
         herr.append(('twin', 'reachability twin (post: False) was not refuted'))
+    funcs = []
+    try:
+        import inspect, warnings
+        with warnings.catch_warnings():
+            warnings.simplefilter('ignore')
+            sys.path.insert(0, REPO)
+            from pyPRISM.core import PairTable as _PT, ValueTable as _VT, Table as _T
+        for mod, cls in ((_PT, 'PairTable'), (_VT, 'ValueTable'), (_T, 'Table')):
+            for nm, fn in inspect.getmembers(getattr(mod, cls), inspect.isfunction):
+                src = inspect.getsource(fn)
+                funcs.append(dict(function='pyPRISM/core/%s.py:%s.%s' % (cls, cls, nm), sha256=hashlib.sha256(src.encode()).hexdigest()[:16]))
+    except Exception as e:
+        funcs = [dict(function='(could not enumerate: %s)' % e, sha256='')]
     wall = time.time() - t0
     ev = dict(property_id='C14', tier=tier, seed=seed, level='model_checking', wall_s=round(wall, 2), violations=len(violations),
               coverage=dict(states=max(len(insts), 1), transitions=max(sum(len(i['seq']) for i in insts), 1), traces_validated_against_impl=len(violations) + (1 if twin_ok else 0),
                             samples=samples or [dict(note='none')], obligations=len(insts), discharged=holds, inconclusive=len(inconc),
-                            instance_names=[i['name'] for i in insts], reachability_twin_refuted=twin_ok,
+                            instance_names=[i['name'] for i in insts], reachability_twin_refuted=twin_ok, functions_encoded=funcs,
                             bounds=dict(types='1-3 (4 thorough)', depth='operation sequences of length 1-3 (op codes enumerated by the driver; keys, masks, query keys, values symbolic)', values='[] or [x] with x a symbolic int (PairTable), symbolic ints (ValueTable)'),
                             solver=dict(engine='crosshair-tool (z3)', per_condition_timeouts=sorted(set(i['to'] for i in insts))),
                             slowest_instances=sorted([(r['wall_s'], r['name']) for r, _ in results], reverse=True)[:5],
